@@ -30,5 +30,26 @@ let () = run_driver (function
     let nc = 3 * int_of_string nf in
     show nc (int_of_string nev + int_of_string nsplit)
       (eb_full (z nev) (z nf) (z nsplit) true (ints sy) (evs ev) (bits_of_list (bits bi)))
+  | ["fulla"; nev; nf; nsplit; sy; ev; bi] ->
+    (* attribute connectivity data present: remove_invalid_vertices = false; np / seams are implementation-only statistics *)
+    let nc = 3 * int_of_string nf in
+    show nc (int_of_string nev + int_of_string nsplit)
+      (eb_full (z nev) (z nf) (z nsplit) false (ints sy) (evs ev) (bits_of_list (bits bi)))
+  | ["apc"; nc; maxv; opp; vc; hole; atts] ->
+    (* AssignPointsToCorners, deduplication path: corner table + attribute corner tables -> num_points, faces *)
+    let arr l = Array.of_list l in
+    let fn a d = fun (i : z) -> let k = int_of_z i in if k >= 0 && k < Array.length a then a.(k) else d in
+    let oppa = arr (ints opp) and vca = arr (ints vc) in
+    let holea = arr (bits hole) in
+    let m1 = z_of_int (-1) in
+    let s0 = init_st [] in
+    let s = { s0 with copp = fn oppa m1; vc = fn vca m1; nv = z_of_int (Array.length vca); hole = fn holea true } in
+    let parse_att a = match String.split_on_char '/' a with
+      | [sb; av] -> let sa = arr (bits sb) and va = arr (ints av) in (fn sa false, fn va m1)
+      | _ -> failwith "att" in
+    let al = List.map parse_att (String.split_on_char ';' atts) in
+    (match assign_points_seam (z nc) (z maxv) s al with
+     | Ok (np, fl) -> Printf.sprintf "np=%s faces=%s" (string_of_z np) (join string_of_z fl)
+     | Reject -> "rej" | OOB -> "MODEL-OOB" | Fuel -> "MODEL-FUEL")
   | k :: _ -> "UNKNOWN-KIND " ^ k
   | [] -> "EMPTY")
